@@ -205,7 +205,7 @@ def extra_units():
     rt.prop = PROP
     out.append(rt)
     # contig-per-process mode: the job list of tag_multiome_multi_processing (every contig with reads in exactly one job)
-    for u in c05.JOB_UNITS:
+    for u in c05.JOB_UNITS + [c05.contigs_with_reads]:
         v = copy.copy(u)
         v.prop = PROP
         out.append(v)
